@@ -39,6 +39,7 @@ typedef struct vp_iface {
 typedef struct vp_global {
     uint8_t *icon;  size_t icon_len;  int icon_present;   /* present=0: getter fails */
     size_t fail_size;                                      /* what a FAILING icon / name query leaves in *out_size (data pointer untouched); 0 = untouched */
+    int recycle;                                           /* the allocator hands a freed block of the same size back AS ITS LAST OWNER LEFT IT (no poison fill) */
     int memcmp_wide;                                       /* lltd_port_memcmp answers with multiples of 256 */
     int send_len;                                          /* a successful transmit returns the byte count instead of 0 */
     size_t mtu_clobber;                                    /* what a FAILING MTU query leaves in its output (0 = untouched) */
